@@ -48,6 +48,10 @@ let handle (toks : string list) : (string * string * string) option =
         | Some _ -> "ABORT" | None -> "NOCOMPILE") in
     let s = "V " ^ string_of_z (wrap to_ v) ^ " P " ^ string_of_z (wrap to_ v) in
     Some (m, s, "scast:" ^ w ^ (if in_range to_ v then ":fits" else ":wraps"))
+  | ["retfn"; k] ->
+    (* a function-pointer result designates the entry of the function table the guest returned (0: null) *)
+    let s = "A " ^ (if k = "0" then "null" else "fn" ^ k) in
+    Some (s, s, "retfn")
   | ["pcastfn"; k; w; to_] ->
     (* the cast keeps the designated function: entry k of the table (0: null) *)
     let s = "A " ^ (if k = "0" then "null" else "fn" ^ k) in
